@@ -4,7 +4,6 @@ input of the model (each is replayed on the real implementation by `py/props/c13
 `known_findings.txt`).
 -/
 import WpModel.Model.ReplacedDoc
-import WpModel.Model.ReplacedBg
 
 namespace Wp.C13.Witness
 open Wp Wp.Replaced
@@ -28,26 +27,5 @@ theorem abs_replaced_ratio_only_uses_cb_x :
     (absoluteReplacedWH true ratioOnly 0 0 200 300 plainBox).toOption.map (fun b => (b.width, b.height)) =
       some (some 0, some 0) := by
   constructor <;> decide +kernel
-
-def isZeroDivision {α} : Except Err α → Bool
-  | .error (.zeroDivision _) => true
-  | _ => false
-
-def box100x50 : Geom := ⟨0, 0, 0, 0, 0, 0, 0, 0, 0, 0, 0, 0, 0, 0, 100, 50⟩
-def centered : Position := ⟨false, .pct 0, false, .pct 0⟩
-
-/-- `background-repeat: round` with a zero-wide image (`background-size: 0 auto`, or a percentage of a
-zero-wide positioning area): `round(positioning_width / image_width)` divides by zero.  The property
-wants an integer number of tiles filling the area (or no painting), not an exception. -/
-theorem background_round_zero_size :
-    isZeroDivision (layoutBackgroundLayer box100x50 .plain box100x50 (some ⟨some 4, some 4, some 1⟩)
-      (.explicit (some (.px 0)) none) .borderBox .round .repeat .paddingBox centered false) = true := by
-  decide +kernel
-
-/-- …while the same layer without `round` is laid out (and then not painted: `0 in layer.size`). -/
-theorem background_zero_size_without_round_ok :
-    (layoutBackgroundLayer box100x50 .plain box100x50 (some ⟨some 4, some 4, some 1⟩)
-      (.explicit (some (.px 0)) none) .borderBox .repeat .repeat .paddingBox centered false).toOption.isSome = true := by
-  decide +kernel
 
 end Wp.C13.Witness
